@@ -1,0 +1,15 @@
+//go:build verif
+
+package local
+
+import "github.com/ErdemOzgen/blackdagger/internal/persistence"
+
+// VerifStop ends the eviction goroutine of the DAG store's metadata cache. It
+// exists only under the `verif` build tag: the external verification harness
+// creates thousands of store instances in one process (a real process creates
+// one) and releases them this way. Nothing else is touched.
+func VerifStop(s persistence.DAGStore) {
+	if d, ok := s.(*dagStoreImpl); ok {
+		d.metaCache.Stop()
+	}
+}
